@@ -969,14 +969,16 @@ func runDH(c *dhcase) {
 		f := obfskit.Fields(rep)
 		r.Validated(1)
 		if len(f) != 3 || f[1] != vlib.Hex(pa) || f[2] != vlib.Hex(sa) {
+			// keep going: the oracle below may turn the disagreement into a failing input
 			r.Violate("uniformdh-differs-from-model", "correspondence",
 				fmt.Sprintf("priv …%s (combo %d): real pub …%s secret …%s, model %s", vlib.Hex(tail(a, 4)), combo, vlib.Hex(tail(pa, 8)), vlib.Hex(tail(sa, 8)), head([]byte(rep), 60)), c)
-			return
 		}
 	}
-	for _, s := range secrets[1:] {
+	for i, s := range secrets[1:] {
 		if s != secrets[0] {
-			r.Violate("uniformdh-secret-depends-on-coin", "impl-oracle", "the shared secret differs between X / p-X choices", c)
+			r.Violate("uniformdh-secret-depends-on-coin", "impl-oracle",
+				fmt.Sprintf("same private numbers, but the shared secret changes with the X / p-X choice (a-lsb=%d b-lsb=%d: …%s, both 0: …%s)", (i+1)&1, (i+1)>>1, s[len(s)-16:], secrets[0][len(secrets[0])-16:]), c)
+			break
 		}
 	}
 	r.Count("dh-priv", privClass(c.PrivA)+"/"+privClass(c.PrivB))
@@ -1053,7 +1055,7 @@ func main() {
 
 	g := vlib.NewRng(r.Seed)
 	// --- UniformDH
-	nDH := r.Scale(30, 400)
+	nDH := r.Scale(45, 600)
 	for i := 0; i < nDH; i++ {
 		runDH(&dhcase{Kind: "dh", PrivA: genPriv(g, i), PrivB: genPriv(g, i/9+i)})
 	}
@@ -1070,7 +1072,7 @@ func main() {
 		runDH(&dhcase{Kind: "dh", PrivA: genPriv(g, j), Peer: randHex(g, keySize)})
 	}
 	// --- sessions
-	reps := r.Scale(4, 60)
+	reps := r.Scale(8, 160)
 	configs := [][2]bool{{true, true}, {true, false}, {false, true}}
 	i := 0
 	for rep := 0; rep < reps; rep++ {
